@@ -250,4 +250,89 @@ example : ceil 2 ⟨2, 2, 1, [3, B - 1]⟩ = ⟨2, 1, 2, [1]⟩ := by decide
 example : trunc 2 ⟨2, -2, 1, [3, 5]⟩ = ⟨2, -1, 1, [5]⟩ := by decide
 example : integer_p ⟨2, 2, 1, [0, 5]⟩ = true ∧ integer_p ⟨2, 2, 1, [3, 5]⟩ = false := by decide
 
+
+/-! ### mpf_mul -/
+
+/-- mpf_mul: the result satisfies the format rules. -/
+theorem mpf_mul_wf (prec : Nat) (u v : F) (hu : OpWF u) (hv : OpWF v) (hp : 2 ≤ prec) :
+    WF (mul prec u v) := by
+  by_cases hu0 : u.size = 0
+  · unfold mul; rw [hu.d_nil hu0]; simp [top, WF_zero]
+  by_cases hv0 : v.size = 0
+  · unfold mul; rw [hv.d_nil hv0]; simp [top, WF_zero]
+  exact (mul_decomp prec u v hu hv hp hu0 hv0).1
+
+/-- mpf_mul with a zero operand is exactly zero. -/
+theorem mpf_mul_zero (prec : Nat) (u v : F) (hu : OpWF u) (hv : OpWF v) (h : u.size = 0 ∨ v.size = 0) :
+    toQ (mul prec u v) = toQ u * toQ v := by
+  rcases h with h | h
+  · unfold mul; rw [toQ_of_size_zero (hu.d_nil h), hu.d_nil h]; simp [top, toQ_zero]
+  · unfold mul; rw [toQ_of_size_zero (hv.d_nil h), hv.d_nil h]; simp [top, toQ_zero]
+
+/-- mpf_mul: |r − u·v| < 2^(2−p)·|u·v| for all operand lengths and precisions (p = 64·prec − 64). -/
+theorem mpf_mul_err (prec : Nat) (u v : F) (hu : OpWF u) (hv : OpWF v) (hp : 2 ≤ prec)
+    (hu0 : u.size ≠ 0) (hv0 : v.size ≠ 0) :
+    |toQ (mul prec u v) - toQ u * toQ v| < eps prec * |toQ u * toQ v| := by
+  obtain ⟨_, U', V', lou, lov, lo, ku, kv, k, rpv, z, hr, he, _, _, hP, h1, h2, h3, h4, h5, h6, h7, h8, _, _, _⟩ :=
+    mul_decomp prec u v hu hv hp hu0 hv0
+  have hQ : B ≤ B ^ (prec - 1) := by
+    calc B = B ^ 1 := (pow_one B).symm
+      _ ≤ B ^ (prec - 1) := Nat.pow_le_pow_right B_pos (by omega)
+  obtain ⟨c1, c2⟩ := mul_core U' V' lou lov lo (B ^ ku) (B ^ kv) (B ^ k) rpv (B ^ (prec - 1)) hQ hP h1 h2 h3 h4 h5 h6 h7 h8
+  rw [hr, he]
+  have hσ : sg u * sg v = 1 ∨ sg u * sg v = -1 := by
+    rcases sg_cases u with a | a <;> rcases sg_cases v with b | b <;> rw [a, b] <;> norm_num
+  exact err_of_nat _ hσ _ _ _ (zpow_pos Bq_pos z) prec c1 c2
+
+/-- mpf_mul is exact whenever both operands and the exact product fit in p bits. -/
+theorem mpf_mul_exact_if_fits (prec : Nat) (u v : F) (hu : OpWF u) (hv : OpWF v) (hp : 2 ≤ prec)
+    (fu : Fits (toQ u) (PREC_TO_BITS prec)) (fv : Fits (toQ v) (PREC_TO_BITS prec))
+    (fe : Fits (toQ u * toQ v) (PREC_TO_BITS prec)) :
+    toQ (mul prec u v) = toQ u * toQ v := by
+  by_cases hu0 : u.size = 0
+  · exact mpf_mul_zero prec u v hu hv (Or.inl hu0)
+  by_cases hv0 : v.size = 0
+  · exact mpf_mul_zero prec u v hu hv (Or.inr hv0)
+  obtain ⟨_, U', V', lou, lov, lo, ku, kv, k, rpv, z, hr, he, hU, hV, hP, h1, h2, h3, _, _, _, h7, h8, hku, hkv, L, hL, hk⟩ :=
+    mul_decomp prec u v hu hv hp hu0 hv0
+  have hpb : PREC_TO_BITS prec = 64 * (prec - 1) := by unfold PREC_TO_BITS; omega
+  rw [hpb] at fu fv fe
+  have hnu : u.d ≠ [] := fun h => hu0 (by have := hu.2.1; rw [h] at this; simp at this; omega)
+  have hnv : v.d ≠ [] := fun h => hv0 (by have := hv.2.1; rw [h] at this; simp at this; omega)
+  -- the dropped low limbs of both operands are zero
+  have fu' : FitsN (val u.d) (64 * (prec - 1)) := by
+    rw [toQ_sg, ← mul_assoc] at fu; exact fitsN_of_fits (sg_cases u) _ _ _ fu
+  have fv' : FitsN (val v.d) (64 * (prec - 1)) := by
+    rw [toQ_sg, ← mul_assoc] at fv; exact fitsN_of_fits (sg_cases v) _ _ _ fv
+  have du := fitsN_dvd fu' (val_ge_of_top u.d hnu hu.2.2.1) (by omega)
+  have dv := fitsN_dvd fv' (val_ge_of_top v.d hnv hv.2.2.1) (by omega)
+  rw [← hku] at du; rw [← hkv] at dv
+  have l1 : lou = 0 := low_zero_of_dvd hU h1 du
+  have l2 : lov = 0 := low_zero_of_dvd hV h2 dv
+  subst l1 l2
+  -- so is the dropped low part of the product
+  have hσ : sg u * sg v = 1 ∨ sg u * sg v = -1 := by
+    rcases sg_cases u with a | a <;> rcases sg_cases v with b | b <;> rw [a, b] <;> norm_num
+  have fe' : FitsN (U' * V') (64 * (prec - 1)) := by
+    rw [he] at fe
+    have f1 := fitsN_of_fits hσ _ _ _ fe
+    have e : (0 + B ^ ku * U') * (0 + B ^ kv * V') = U' * V' * 2 ^ (64 * (ku + kv)) := by
+      have : (2 : ℕ) ^ (64 * (ku + kv)) = B ^ ku * B ^ kv := by unfold B; rw [← pow_mul, ← pow_mul, ← pow_add]; congr 1; ring
+      rw [this]; ring
+    rw [e] at f1
+    exact fitsN_of_mul_pow f1
+  have dP := fitsN_dvd fe' hL (by omega : 1 ≤ prec)
+  have dk : B ^ k ∣ U' * V' := by
+    rw [hk]; exact Dvd.dvd.trans (Nat.pow_dvd_pow B (by omega)) dP
+  have l3 : lo = 0 := low_zero_of_dvd hP h3 dk
+  subst l3
+  have e : rpv * B ^ k * B ^ ku * B ^ kv = (0 + B ^ ku * U') * (0 + B ^ kv * V') := by
+    rw [show (0 + B ^ ku * U') * (0 + B ^ kv * V') = B ^ ku * B ^ kv * (U' * V') by ring, hP]; ring
+  rw [hr, he, e]
+
+-- non-vacuity: 3-limb by 2-limb product truncated to prec+1 = 3 limbs; and an exact product
+example : mul 2 ⟨3, 3, 1, [7, 8, 9]⟩ ⟨2, -2, 0, [5, 6]⟩ = ⟨2, -3, 0, [40, 93, 54]⟩ := by decide
+example : toQ (mul 2 ⟨2, 1, 1, [3]⟩ ⟨2, 1, 1, [5]⟩) = 15 := by
+  rw [show mul 2 ⟨2, 1, 1, [3]⟩ ⟨2, 1, 1, [5]⟩ = ⟨2, 1, 1, [15]⟩ by decide]; simp [toQ, val]
+
 end Mpir.Mpf
